@@ -350,9 +350,20 @@ fn gen_config(seed: u64, work: &PathBuf, directed: u32) -> Config {
     let mut provs = vec![];
     if directed != 0 {
         provs.push(Prov::Mecab);
+        provs.push(Prov::Regex {
+            def: OovDef { left: 2, right: 2, cost: -100, pos: 4 },
+            pat: Pattern { alts: vec![vec![Atom { set: vec!['a', 'b', '1', '2'], min: 1, max: usize::MAX }]] },
+            maxlen: Some(400),
+            strict: Some(false),
+            debug: false,
+        });
         provs.push(Prov::Simple(OovDef { left: 1, right: 1, cost: 6000, pos: 0 }));
     } else {
-        let n = 1 + rng.below(3);
+        let n = match rng.below(20) {
+            0..=2 => 1,
+            3..=11 => 2,
+            _ => 3,
+        };
         for i in 0..n {
             let last = i + 1 == n;
             let k = if last && rng.chance(3, 4) { 1 } else { rng.below(3) };
@@ -460,8 +471,15 @@ fn gen_text(rng: &mut Rng, cfg: &Config, directed: u32) -> String {
     let mut s = String::new();
     let kind = rng.below(20);
     if kind == 0 {
-        // a run longer than 64
-        let c = *rng.pick(&bases);
+        // a run longer than 64 (preferably of a character a configured pattern matches)
+        let mut c = *rng.pick(&bases);
+        for p in &cfg.provs {
+            if let Prov::Regex { pat, .. } = p {
+                if rng.chance(3, 4) {
+                    c = pat.alts[0][0].set[0];
+                }
+            }
+        }
         let n = 60 + rng.below(30) as usize;
         for i in 0..n {
             s.push(c);
@@ -674,6 +692,12 @@ fn run_case(cfg: &Config, text: &str, rng: &mut Rng, verbose: bool) -> CaseOut {
         for _ in 0..5 {
             offsets.push(rng.below(len as u64) as usize);
         }
+        // positions from which the class run has about MAX_VALUE characters left
+        for i in 0..len {
+            if (62..=66).contains(&conts[i]) {
+                offsets.push(i);
+            }
+        }
         offsets.sort();
         offsets.dedup();
     }
@@ -681,11 +705,15 @@ fn run_case(cfg: &Config, text: &str, rng: &mut Rng, verbose: bool) -> CaseOut {
     let mut ncalls_nonempty = 0;
     for (pi, p) in provs.iter().enumerate() {
         for &off in &offsets {
-            let nvar = if len > 10 { 2 } else { 3 };
+            let near_max = (62..=66).contains(&conts[off]);
+            let nvar = if near_max { 7 } else if len > 10 { 2 } else { 3 };
             for var in 0..nvar {
                 // lengths already "created" at this offset and the matching pre-filled result vector
                 let mut pre: Vec<usize> = vec![];
-                if var > 0 {
+                if var >= 3 {
+                    // around the saturation point of the bit set: one long word of a fixed length
+                    pre.push([70usize, 65, 64, 63][var - 3]);
+                } else if var > 0 {
                     let cands = [1usize, 2, 3, 5, 63, 64, 65, 70, len - off, conts[off]];
                     for _ in 0..1 + rng.below(3) {
                         let l = *rng.pick(&cands);
